@@ -214,6 +214,44 @@ fn push_boundary_cases(tier: Tier) -> Vec<(String, Vec<u8>)> {
     v
 }
 
+/// Standard locking/unlocking script shapes (P2PKH, P2PK, multisig, data carrier, hash puzzle, conditional)
+fn standard_templates() -> Vec<Vec<u8>> {
+    let mut v = vec![];
+    let mut p2pkh = vec![0x76, 0xa9, 0x14];
+    p2pkh.extend((1..=20u8).collect::<Vec<_>>());
+    p2pkh.extend_from_slice(&[0x88, 0xac]);
+    v.push(p2pkh);
+    let mut p2pk = vec![0x21, 0x02];
+    p2pk.extend(vec![0x11; 32]);
+    p2pk.push(0xac);
+    v.push(p2pk);
+    let mut p2pk_u = vec![0x41, 0x04];
+    p2pk_u.extend(vec![0x22; 64]);
+    p2pk_u.push(0xac);
+    v.push(p2pk_u);
+    let mut p2sh = vec![0xa9, 0x14];
+    p2sh.extend(vec![0x33; 20]);
+    p2sh.push(0x87);
+    v.push(p2sh);
+    let mut ms = vec![0x51, 0x21, 0x03];
+    ms.extend(vec![0x44; 32]);
+    ms.extend_from_slice(&[0x21, 0x02]);
+    ms.extend(vec![0x55; 32]);
+    ms.extend_from_slice(&[0x52, 0xae]);
+    v.push(ms);
+    v.push(vec![0x00, 0x6a, 0x04, 1, 2, 3, 4]);
+    let mut unlock = vec![0x47, 0x30, 0x44, 0x02, 0x20];
+    unlock.extend(vec![0x12; 32]);
+    unlock.extend_from_slice(&[0x02, 0x20]);
+    unlock.extend(vec![0x34; 32]);
+    unlock.push(0x41);
+    unlock.extend_from_slice(&[0x21, 0x02]);
+    unlock.extend(vec![0x66; 32]);
+    v.push(unlock);
+    v.push(vec![0x63, 0x51, 0x67, 0x52, 0x68, 0xac]);
+    v
+}
+
 fn deep_cases() -> Vec<(String, Vec<u8>)> {
     let mut v = vec![];
     for depth in [10usize, 100, 1000] {
@@ -309,6 +347,54 @@ pub fn spaces(tier: Tier) -> Vec<Space> {
         v.push(Space::new("deep", cases.len() as u64, move |case, acc| {
             let (_desc, b) = &cases[case.idx as usize];
             eval_bytes(b, &e, acc, case);
+        }));
+    }
+    // standard templates extended/prefixed/spliced with every string of length <= 2 (fast paths that recognise a template
+    // by a few bytes must not swallow what surrounds it)
+    {
+        let e = env.clone();
+        let templates: Vec<Vec<u8>> = standard_templates();
+        let nt = templates.len() as u64;
+        let all: Arc<Vec<u8>> = Arc::new((0..=255u8).collect());
+        let a = all.clone();
+        v.push(Space::new("template-splice", nt * 4 * 65793, move |case, acc| {
+            let c = crate::engine::coords(case.idx, &[nt, 4, 65793]);
+            let t = &templates[c[0] as usize];
+            let (n, k) = if c[2] == 0 { (0usize, 0u64) } else if c[2] <= 256 { (1, c[2] - 1) } else { (2, c[2] - 257) };
+            let x = idx_to_bytes(k, n, &a);
+            let b: Vec<u8> = match c[1] {
+                0 => [t.as_slice(), x.as_slice()].concat(),
+                1 => [x.as_slice(), t.as_slice()].concat(),
+                2 => {
+                    // splice after the first token
+                    let cut = rs::tokenize(t).ok().and_then(|tk| tk.first().map(|f| rs::serialize(&[f.clone()]).len())).unwrap_or(1).min(t.len());
+                    [&t[..cut], x.as_slice(), &t[cut..]].concat()
+                }
+                _ => [t.as_slice(), x.as_slice(), t.as_slice()].concat(),
+            };
+            eval_bytes(&b, &e, acc, case);
+        }));
+    }
+    // every push payload length 1..=N in its minimal form, followed by one opcode (interior lengths)
+    {
+        let e = env.clone();
+        let maxlen: u64 = if tier.is_thorough() { 70000 } else { 2100 };
+        v.push(Space::new("push-length-sweep", maxlen, move |case, acc| {
+            let n = case.idx as usize + 1;
+            let data: Vec<u8> = (0..n).map(|i| (i * 7 + 1) as u8).collect();
+            let mut b = rs::minimal_push_prefix(n as u64);
+            b.extend_from_slice(&data);
+            b.push(0xac);
+            eval_bytes(&b, &e, acc, case);
+            // and the encoding helper for the same length
+            acc.transitions += 1;
+            let mut want = rs::minimal_push_prefix(n as u64);
+            want.extend_from_slice(&data);
+            match guard(|| Script::encode_pushdata(&data)) {
+                Ok(Ok(enc)) if enc == want => {}
+                Ok(other) => acc.violate(format!("C02/encode_pushdata/kind=wrong-encoding/len-class={}", if n <= 75 { "direct" } else if n <= 255 { "pushdata1" } else if n <= 65535 { "pushdata2" } else { "pushdata4" }), case.idx, case.json(json!({"fn": "Script::encode_pushdata", "data_len": n})), format!("{:?}", other.map(|x| hx(&x)).map_err(|x| x.to_string()))),
+                Err(p) => acc.violate(format!("C02/encode_pushdata/kind=panic@{}", panic_site(&p)), case.idx, case.json(json!({"data_len": n})), p),
+            }
         }));
     }
     // E3: strings whose PUSHDATA4 declares a payload far beyond what remains (allocation bombs today)
